@@ -221,10 +221,13 @@ CLAIMED = {
         text="Proved in Lean over the abstract runner with failing passes: a module on which a pass raised is marked failed and lacks that "
         "pass's done mark; any later visit of any pass reaching it through a not-yet-completed path does not complete (never exported); "
         "failure is permanent and failed modules are never rewritten; modules not below the visited top are untouched whatever happens; "
-        "a retry fails again. Decided by correspondence: every (pass position, module) injection point through custom pass lists, real "
+        "a retry fails again; generator calls (GenRun model): a call whose body raised leaves the cache exactly as it was, can be run again and is "
+        "cached once its body returns, and no call leaves a pending mark. The runner model is tied to ElabPass / Elaborator by marker passes "
+        "failing at planned points over random DAGs and call sequences (done sets per pass class, remembered errors, ok flag after every call), "
+        "the generator model to the real cache by random plans of failing / returning bodies. Further decided by correspondence: every (pass position, module) injection point through custom pass lists, real "
         "design faults, and a generator body raising once, each followed by retry / retry with the default elaborator / export of every "
         "module not containing the offending one / an unrelated design, in one fresh process per scenario and compared with fresh-process packages.",
-        note="Exception texts and the generator cache's behaviour after a failure are covered by the correspondence only.",
+        note="Exception texts and BundleFlattener's module-scope cache are covered by the correspondence only.",
         ref="DESIGN.md §6 C08",
         technique="Lean 4 proof (failure invariants of the runner) + fault-injection correspondence in fresh processes",
     ),
